@@ -41,3 +41,10 @@ chk("C06", "all-pairs testing of generated paths and systematically derived near
     "and set membership; 10^5-key families exercise collisions of the 32-bit compiled hash; identical-structure expressions must be equal "
     "and hash equally.",
     TRUST, "DESIGN.md 4/C06")
+
+chk("C12", "model-based round-trip testing: generated managers covering every node class, pickled, then differential follow-up histories on original and copy",
+    "Generated histories plus a decoration phase that uses every expression node class; pickle.loads(pickle.dumps(manager)) must succeed, "
+    "the copy must have structurally identical definitions (dump text and operand-level read-back), pass verify() and a two-sided index "
+    "invariant, own distinct containers and refs; follow-up assignments applied to both, or to one side only, are compared with one pull "
+    "model per side after every step (identical behaviour and independence).",
+    TRUST + " Only expression tasks over picklable harness containers.", "DESIGN.md 4/C12")
